@@ -102,10 +102,74 @@ def run(ctx):
                 it['origin'] = {'cfg': r['cfg'], 'lf': r['lf'], 'prog': prog, 'force_false': ff, 'index': it.get('index')}
             items.extend(its)
     L.run_corr(ctx, items, 'fixed-point value/flag layer (runtime.py vs MpycV.Fxp)')
+    party_inputs(ctx)
     # the old rule as a sanity check of the oracle itself: model says the old flag rule marks 2.3 integral
     import common
     out = common.LeanDriver('Fxp').run(['vaddold 8 4 30 1000003 16:1,5:0 32:1,32:1', 'vadd 8 4 30 1000003 16:1,5:0 32:1,32:1'])
     ctx.compare('flag rule of list operations (old vs fixed)', ['48:1,37:1', '48:0,37:0'], out)
+
+
+KEY_INPUT = 'C03-input-party-dependent-flag'
+
+
+def party_inputs_case(m, t, lf, vals, seed=0, multiply=False):
+    """mpc.input() where every party supplies ITS OWN private value vals[pid] (the other scenarios let every party
+    pass the same constructor argument).  Returns (flags per party, opened values, error)."""
+    import simnet
+    l, f = lf
+
+    async def program(mpc):
+        secfxp = mpc.SecFxp(l, f)
+        xs = mpc.input(secfxp(vals[mpc.pid]))
+        flags = [bool(a.integral) for a in xs]
+        if multiply:
+            xs = xs + [xs[i] * xs[(i + 1) % len(xs)] for i in range(len(xs))]
+            flags = [bool(a.integral) for a in xs]
+        raws = await mpc.output(list(xs), raw=True)
+        return flags, [int(r) for r in raws]
+    try:
+        res = simnet.SimNet(m, t, seed=seed, max_steps=300000).run(program)
+    except Exception as exc:
+        return None, None, f'{type(exc).__name__}: {str(exc)[:200]}'
+    return [r[0] for r in res], res[0][1], None
+
+
+def party_inputs(ctx):
+    """flags of values received through mpc.input must be sound at every party and equal at all parties"""
+    rng = ctx.subrng('party-inputs')
+    pats = []
+    for m, t in ((2, 0), (3, 1), (4, 1)):
+        pats.append((m, t, [3] * m))                                # all whole
+        pats.append((m, t, [2.5] + [3] * (m - 1)))                   # sender 0 fractional
+        pats.append((m, t, [3] * (m - 1) + [0.75]))                  # last sender fractional
+        pats.append((m, t, [1.25] * m))                              # all fractional
+        for _ in range(ctx.scale(2, 12)):
+            pats.append((m, t, [rng.choice([rng.randrange(-20, 20), rng.randrange(-80, 80) / 4]) for _ in range(m)]))
+    for m, t, vals in pats:
+        for lf in ((16, 8), (32, 16)):
+            f = lf[1]
+            flags, raws, err = party_inputs_case(m, t, lf, vals, seed=ctx.seed)
+            rep = {'kind': 'party-inputs', 'm': m, 't': t, 'lf': list(lf), 'vals': vals, 'seed': ctx.seed}
+            ctx.case(('party-inputs', m, lf, tuple(vals)), nontrivial=len({float(v).is_integer() for v in vals}) > 1)
+            ctx.count('op:input-per-party')
+            if err:
+                ctx.violation(f'C03: mpc.input with per-party values {vals} does not complete: {err}', rep)
+                continue
+            p = None
+            bad = None
+            for pid, fl in enumerate(flags):
+                for j, (flg, raw) in enumerate(zip(fl, raws)):
+                    if flg and float(vals[j]) != int(vals[j]):
+                        bad = f'party {pid} marks the input of party {j} (value {vals[j]}) integral'
+                        break
+                if bad:
+                    break
+            if not bad and any(fl != flags[0] for fl in flags):
+                bad = f'parties disagree on the integral flags of the inputs: {flags}'
+            if bad:
+                rep['finding_key'] = KEY_INPUT
+                rep['flags'] = flags
+                ctx.violation('C03: ' + bad + ' (the flag is taken from the receiving party\'s own private value)', rep)
 
 
 def handle(ctx, r, lf, prog):
@@ -156,6 +220,17 @@ def shrink(rep):
 
 
 def replay(ctx, data):
+    if data.get('kind') == 'party-inputs':
+        flags, raws, err = party_inputs_case(data['m'], data['t'], tuple(data['lf']), data['vals'], seed=data.get('seed', 0))
+        if err:
+            return False, err
+        for pid, fl in enumerate(flags):
+            for j, flg in enumerate(fl):
+                if flg and float(data['vals'][j]) != int(data['vals'][j]):
+                    return False, f'party {pid} marks the fractional input of party {j} integral'
+        if any(fl != flags[0] for fl in flags):
+            return False, f'parties disagree on the flags: {flags}'
+        return True, 'ok: input flags sound and equal at all parties'
     prog = data['prog']
     lf = tuple(data['lf'])
     cfg = tuple(data['cfg'])
